@@ -6,6 +6,10 @@ export CARGO_NET_OFFLINE=true PIP_NO_INDEX=1
 if ! /venv/bin/python -c "import hypothesis" 2>/dev/null; then
   /venv/bin/pip install --no-index --find-links /opt/veriftools/wheels --target /verif/.deps hypothesis
 fi
+# coverage-guided fuzzing stage of C01 (thorough tier); optional: the stage is skipped if missing
+if ! PYTHONPATH=/verif/.deps /venv/bin/python -c "import atheris" 2>/dev/null; then
+  /venv/bin/pip install --no-index --find-links /opt/veriftools/wheels --target /verif/.deps atheris >/dev/null 2>&1 || true
+fi
 /venv/bin/python substrate/build.py
 PYTHONHASHSEED=0 PYTHONPATH=/verif/.deps /venv/bin/python -c "
 from vp_harness import env
